@@ -10,6 +10,7 @@ EXTENDS MapBlocks, Json
 
 CONSTANTS Fams,     \* subset of {"mb", "bw", "gu"}
           Shapes,   \* shapes of the dominant input
+          ZeroShapes, \* shapes whose first axis is additionally chunked with one zero-width chunk (map_blocks, blockwise)
           Mods,     \* [mb |-> m, bw |-> m, gu |-> m]: keep a case iff its hash is 0 modulo m
           Salt
 
@@ -24,7 +25,7 @@ HArr(a) == (HSeq(a.shape, 3) + SumSeq([d \in DOMAIN a.chunks |-> Len(a.chunks[d]
 HArrs(as) == SumSeq([i \in DOMAIN as |-> HArr(as[i]) * (i + 10)]) % 9973
 HStr(s) == CASE s = "none" -> 1 [] s = "same" -> 2 [] s = "first" -> 3 [] s = "both" -> 4 [] s = "id" -> 5 [] s = "info" -> 6
              [] s = "i" -> 7 [] s = "j" -> 8 [] s = "k" -> 9 [] s = "s1" -> 11 [] s = "s2" -> 12 [] s = "s3" -> 13
-             [] s = "s4" -> 14 [] s = "s5" -> 15 [] s = "s6" -> 16 [] OTHER -> 17
+             [] s = "s4" -> 14 [] s = "s5" -> 15 [] s = "s6" -> 16 [] s = "dbl" -> 18 [] s = "int3" -> 19 [] s = "inc" -> 20 [] OTHER -> 17
 HStrs(ss) == HSeq([i \in DOMAIN ss |-> HStr(ss[i])], 3)
 B2I(b) == IF b THEN 1 ELSE 0
 Keep(h, fam) == ((h + Salt) % Mods[fam]) = 0
@@ -77,14 +78,14 @@ BwSecond(a, ia, ib) ==
                    ELSE LET ch == a.chunks[CHOOSE q \in qs : TRUE] IN {ch, <<SumSeq(ch)>>, <<1>>}
        IN {<<h>> \o t : h \in opts, t \in BwSecond(a, ia, Tail(ib))}
 BwCase(arrs, inds, oi, conc, nax, adj) ==
-  [fam |-> "bw", arrs |-> arrs, inds |-> inds, oi |-> oi, conc |-> conc, nax |-> nax, adj |-> adj]
+  [fam |-> "bw", arrs |-> arrs, inds |-> inds, oi |-> oi, conc |-> conc, nax |-> nax, adj |-> adj[1], adjk |-> adj[2]]
 BwHash(c) == (HArrs(c.arrs) + HStrs(c.oi) * 7 + Len(c.oi) * 41 + SumSeq([i \in DOMAIN c.inds |-> HStrs(c.inds[i]) * (i + 2)]) + B2I(c.conc) * 3
-              + Len(c.adj) * 5 + SumSeq([q \in DOMAIN c.nax |-> c.nax[q].sz * 11])) % 9973
+              + Len(c.adj) * 5 + HStr(c.adjk) * 43 + SumSeq([q \in DOMAIN c.nax |-> c.nax[q].sz * 11])) % 9973
 BwCases(a) ==
   { c \in UNION { UNION { { BwCase(IF Len(p.ib) = 0 THEN <<a>> ELSE <<a, Arr(bch)>>,
                                    IF Len(p.ib) = 0 THEN <<p.ia>> ELSE <<p.ia, p.ib>>,
                                    p.oi, conc, [q \in DOMAIN p.nw |-> [ix |-> p.nw[q], sz |-> sz]], adj)
-                            : conc \in BOOLEAN, sz \in (IF Len(p.nw) = 0 THEN {1} ELSE {1, 2}), adj \in ({<<>>} \cup (IF Len(p.oi) > 0 THEN {<<p.oi[1]>>} ELSE {})) }
+                            : conc \in BOOLEAN, sz \in (IF Len(p.nw) = 0 THEN {1} ELSE {1, 2}), adj \in ({<< <<>>, "dbl" >>} \cup (IF Len(p.oi) > 0 THEN {<< <<p.oi[1]>>, k >> : k \in {"dbl", "int3", "inc"}} ELSE {})) }
                           : bch \in BwSecond(a, p.ia, p.ib) }
                   : p \in {q \in BwPats : Len(q.ia) = ND(a)} }
     : Keep(BwHash(c), "bw") /\ BwValid(c)
@@ -110,7 +111,9 @@ GuCases(a) ==
 CasesOf(b) == CASE b.fam = "mb" -> MbCases(b.a) [] b.fam = "bw" -> BwCases(b.a) [] b.fam = "gu" -> GuCases(b.a)
 
 NoCase == [fam |-> "none"]
+ZeroChunkings(sh) == { <<z>> \o r : z \in WithOneZero(Head(sh)), r \in NDChunkings(Tail(sh)) }
 Init == /\ base \in UNION { { [fam |-> f, a |-> Arr(ch)] : ch \in NDChunkings(sh), f \in Fams } : sh \in Shapes }
+                  \cup UNION { { [fam |-> f, a |-> Arr(ch)] : ch \in ZeroChunkings(sh), f \in Fams \ {"gu"} } : sh \in ZeroShapes }
         /\ case = NoCase /\ out = ""
 Next == /\ case = NoCase
         /\ \E c \in CasesOf(base) : case' = c /\ out' = ToJson([c |-> c, e |-> Expect(c)])
@@ -127,7 +130,9 @@ MbTiles == (IsCase /\ case.fam = "mb" /\ E.ok /\ case.chk # "first" /\ case.nsz 
   IN /\ Cardinality(UNION {RangeOf(all[k]) : k \in DOMAIN all}) = n
      /\ n * ProdSeq([d \in DOMAIN case.drop |-> case.arrs[case.dom].shape[case.drop[d] + 1]]) = Size(case.arrs[case.dom].shape)
 \* the argument views of all calls cover every input completely (nothing is never handed to the function)
-ArgsCover == (IsCase /\ case.fam \in {"mb", "bw"} /\ E.ok) =>
+\* (except with a repeated index such as "ii": only the diagonal blocks are read)
+NoRepeat == case.fam = "mb" \/ \A i \in DOMAIN case.inds : \A p, q \in DOMAIN case.inds[i] : p # q => case.inds[i][p] # case.inds[i][q]
+ArgsCover == (IsCase /\ case.fam \in {"mb", "bw"} /\ E.ok /\ NoRepeat) =>
   \A i \in DOMAIN case.arrs :
      UNION {ViewCells(E.calls[k].args[i]) : k \in DOMAIN E.calls}
        = {IdBase * (i - 1) + p : p \in 0..(Size(case.arrs[i].shape) - 1)}
@@ -136,5 +141,5 @@ OneCallPerBlock == (IsCase /\ case.fam \in {"mb", "bw"} /\ E.ok) =>
   /\ Len(E.calls) = ProdSeq(E.onb)
   /\ \A k1, k2 \in DOMAIN E.calls : k1 # k2 => E.calls[k1].bid # E.calls[k2].bid
 \* gufunc outputs have as many cells as their shape says
-GuSizes == (IsCase /\ case.fam = "gu" /\ E.ok) => \A o \in DOMAIN E.outs : Len(E.outs[o].cells) = Size(E.outs[o].shape)
+GuSizes == (IsCase /\ case.fam = "gu" /\ (E.ok \/ E.soft)) => \A o \in DOMAIN E.outs : Len(E.outs[o].cells) = Size(E.outs[o].shape)
 =============================================================================
